@@ -8,7 +8,7 @@ git -C /repo worktree add --detach $wt HEAD >/dev/null 2>&1 || exit 2
 git -C $wt apply /verif/seeded/$name/patch.diff || exit 2
 cd /verif
 for id in "$@"; do
-  out=$(VERIF_REPO=$wt ./bin/vcheck run $id --tier ${TIER:-quick} 2>&1); rc=$?
+  out=$(VERIF_REPO=$wt ${VCHECK:-./bin/vcheck} run $id --tier ${TIER:-quick} 2>&1); rc=$?
   echo "== seed=$name check=$id exit=$rc"
   echo "$out" | grep -E "^(VIOLATION|  kind=|  witness|KNOWN-FINDING|BUILD-FAILED|SETUP-FAILED|C[0-9]+ tier)" | cut -c1-260
 done
